@@ -63,30 +63,103 @@ def crosses_year(spec, with_end):
 
 
 # ----------------------------------------------------------- symptom codes
-def tflag_symptom(got, want, begin=None):
-    """got, want: (nt, 2) int arrays (date YYYYJJJ, time HHMMSS).
-    '+100y'      : times equal, dates equal except 19xx dates read as 20xx
-    'etime=btime': dates equal, times equal the begin times instead
-    ''           : anything else"""
+def _jday1(date):
+    """(Y+1)001 -> Y(ylen+1): the end date the writers produce at a year end"""
+    y, j = divmod(int(date), 1000)
+    if j == 1:
+        return (y - 1) * 1000 + _ylen(y - 1) + 1
+    return None
+
+
+def row_codes(got, want, begin=None):
+    """got, want: (nt, 2) int arrays (YYYYJJJ, HHMMSS); begin: the begin
+    flags when `want` are end flags.  Every differing row is explained by the
+    smallest combination of the known transformations
+        'jday+1'      (Y+1)001 written as day ylen+1 of year Y
+        '+100y'       a 19xx date presented as 20xx
+        'etime=btime' the time of day is the begin time
+    or is 'other'.  Returns the sorted list of codes over all rows ([] when
+    equal, ['shape'] when the shapes differ)."""
+    import itertools
     import numpy as np
     got = np.asarray(got)
     want = np.asarray(want)
-    if got.shape != want.shape or got.ndim != 2:
-        return ''
-    dd = got[:, 0].astype('i8') - want[:, 0]
-    same_t = (got[:, 1] == want[:, 1]).all()
-    if same_t and set(dd.tolist()) <= {0, 100000} and (dd != 0).any() and \
-            (want[dd != 0, 0] < 2000000).all():
-        return '+100y'
-    if begin is not None and (dd == 0).all() and not same_t and \
-            (got[:, 1] == np.asarray(begin)[:, 1]).all():
-        return 'etime=btime'
-    if begin is not None and not same_t and \
-            (got[:, 1] == np.asarray(begin)[:, 1]).all() and \
-            set(dd.tolist()) <= {0, 100000} and \
-            (want[dd != 0, 0] < 2000000).all():
-        return 'etime=btime,+100y'
-    return ''
+    if got.shape != want.shape or got.ndim != 2 or got.shape[1] != 2:
+        return ['shape']
+    codes = set()
+    names = ['jday+1', '+100y', 'etime=btime']
+    for i in range(got.shape[0]):
+        g = (int(got[i, 0]), int(got[i, 1]))
+        w = (int(want[i, 0]), int(want[i, 1]))
+        if g == w:
+            continue
+        found = None
+        for n in range(1, 4):
+            for sub in itertools.combinations(names, n):
+                d, t = w
+                ok = True
+                if 'jday+1' in sub:
+                    d = _jday1(d)
+                    ok = d is not None
+                if ok and '+100y' in sub:
+                    ok = d < 2000000
+                    d += 100000
+                if ok and 'etime=btime' in sub:
+                    ok = begin is not None
+                    if ok:
+                        t = int(np.asarray(begin)[i, 1])
+                if ok and (d, t) == g:
+                    found = sub
+                    break
+            if found:
+                break
+        codes.update(found if found else ['other'])
+    return sorted(codes)
+
+
+def tflag_symptom(got, want, begin=None):
+    return ','.join(row_codes(got, want, begin))
+
+
+def time_cause(spec, klass, which):
+    """primary known root cause of a time-flag failure whose klass ends with
+    '/<codes>' (see row_codes), or None.  which: 'begin' | 'end'.  Every code
+    must be accounted for by a root cause whose input class holds."""
+    codes = klass.rsplit('/', 1)[-1].split(',')
+    if not codes or codes == ['']:
+        return None
+    fmt = spec['fmt']
+    need = []
+    for c in codes:
+        if c == '+100y':
+            # 'end-rt': end flags after a writer round trip; the writers
+            # derive the end date from the begin date unless f has ETFLAG
+            if which == 'begin':
+                ok = straddles_2000(begins(spec))
+            elif which == 'end':
+                ok = straddles_2000(ends(spec))
+            else:
+                ok = straddles_2000(begins(spec)) or \
+                    straddles_2000(ends(spec))
+            if not ok:
+                return None
+            need.append('century')
+        elif c == 'jday+1':
+            if which == 'begin' or \
+                    fmt not in ('uamiv', 'lateral_boundary') \
+                    or not a_step_ends_next_year(spec):
+                return None
+            need.append('enddate-yearend')
+        elif c == 'etime=btime':
+            if which == 'begin' or fmt != 'lateral_boundary':
+                return None
+            need.append('lateral-etflag-btime')
+        else:
+            return None
+    for k in ('lateral-etflag-btime', 'enddate-yearend', 'century'):
+        if k in need:
+            return k
+    return None
 
 
 def end_symptom(got, want):
@@ -103,6 +176,5 @@ def end_symptom(got, want):
                 g[2] == w[2]:
             hit = True
             continue
-        # two-digit years: 1999 -> "99366" is still 1999; 2069 cannot occur
         return ''
     return 'jday+1' if hit else ''
